@@ -75,7 +75,7 @@ func c01world(p c01params) (*chainfx.World, chainfx.HistoryOpts) {
 	if p.Seed%2 == 1 {
 		w.Sharded(3)
 	}
-	return w, chainfx.HistoryOpts{TxPerBlock: 4, WithFlips: true, MoreFlips: true, Onboard: true, OnlineAtOnce: true, Contracts: true, Always: map[int]bool{0: true}}
+	return w, chainfx.HistoryOpts{TxPerBlock: 4, WithFlips: true, MoreFlips: true, Onboard: true, OnlineAtOnce: true, Contracts: true, MoreTypes: true, Always: map[int]bool{0: true}}
 }
 
 func traceLine(n *chainfx.Node) string {
